@@ -45,6 +45,11 @@ type FileTruth struct {
 	EarlierSeen map[string]bool
 	Prefix   string
 	Pool     []string
+	// EverDot: paths that were declared a dot-import at some point of the File's history
+	EverDot map[string]bool
+	// Fixed: paths that appeared in an earlier output of this File -> were they dot-imported THEN
+	// (a registered path keeps its status whatever is hinted afterwards, C08)
+	Fixed map[string]bool
 }
 
 var stdNameCache sync.Map
@@ -98,7 +103,7 @@ func goroot() string {
 }
 
 func truthOf(c *Case, f int, upto int) *FileTruth {
-	t := &FileTruth{Hints: map[string][2]string{}, Anon: map[string]bool{}}
+	t := &FileTruth{Hints: map[string][2]string{}, Anon: map[string]bool{}, EverDot: map[string]bool{}}
 	for i, o := range c.Ops {
 		if i >= upto {
 			break
@@ -120,6 +125,9 @@ func truthOf(c *Case, f int, upto int) *FileTruth {
 			t.Hints[o.Str[0]] = [2]string{o.Str[1], "name"}
 		case OpHintAlias:
 			t.Hints[o.Str[0]] = [2]string{o.Str[1], "alias"}
+			if o.Str[1] == "." {
+				t.EverDot[o.Str[0]] = true
+			}
 		case OpHintNames:
 			for _, kv := range o.KV {
 				t.Hints[kv[0]] = [2]string{kv[1], "name"}
@@ -147,6 +155,9 @@ func (t *FileTruth) declName(p string) string {
 }
 
 func (t *FileTruth) isDot(p string) bool {
+	if d, ok := t.Fixed[p]; ok {
+		return d && p != "C"
+	}
 	h, ok := t.Hints[p]
 	return ok && h[0] == "." && h[1] == "alias" && p != "C"
 }
